@@ -41,7 +41,6 @@ func Event(point string, kv ...any) {
 
 // Yield is a schedule perturbation point: the harness may delay the caller here.
 func Yield(point string) {
-	atomic.AddInt64(&steps, 1)
 	if f, ok := yielder.Load().(yieldFn); ok && f != nil {
 		f(point)
 	}
@@ -57,7 +56,8 @@ func Busy(delta int) {
 // BusyCount returns the current in-flight count.
 func BusyCount() int64 { return atomic.LoadInt64(&busy) }
 
-// Steps returns a counter that advances at every hook call.
+// Steps returns a counter that advances at every Event and Busy call (not at
+// Yield points, which the harness itself triggers when it probes the actors).
 func Steps() int64 { return atomic.LoadInt64(&steps) }
 
 // RegisterProbe registers a function reporting whether an internal component
